@@ -171,6 +171,9 @@ type Registry struct {
 	// next link carries no "last" at all.
 	CursorKey  string
 	CursorSalt string
+	// Hidden names are held but never shown (e.g. no permission): a page window that consists of
+	// hidden entries only is an EMPTY page, with a Link when items remain.
+	Hidden map[string]bool
 	// NoReferrersAPI makes the referrers endpoint answer 404 (code NOT_FOUND), like a registry without it
 	NoReferrersAPI bool
 	// Decide is the split oracle; x has Kind, Repo, Path and Query filled in.
@@ -309,10 +312,19 @@ func (r *Registry) RoundTrip(req *http.Request) (*http.Response, error) {
 	x.Unfilt = rest[:m:m]
 	x.More = m < len(rest)
 	x.Page = x.Unfilt
+	if len(r.Hidden) > 0 {
+		x.Page = nil
+		for _, it := range x.Unfilt {
+			if !r.Hidden[it.Name] {
+				x.Page = append(x.Page, it)
+			}
+		}
+	}
+	shown := x.Page
 	at := x.Query.Get("artifactType")
 	if x.Kind == 'R' && at != "" && (d.Filter || FilterApplied(d.FHdr, "artifactType") || FilterApplied(d.FAnn, "artifactType")) {
 		x.Page = nil
-		for _, it := range x.Unfilt {
+		for _, it := range shown {
 			if it.ArtifactType == at {
 				x.Page = append(x.Page, it)
 			}
